@@ -94,6 +94,10 @@ type C12Case struct {
 	// single-writer part (0 = one hour, i.e. no periodic flush at all), so
 	// that ticks and writers' signals meet.
 	SyncUS int `json:"sync_us,omitempty"`
+	// LateStart (single-writer part): Store.Start is only called once the
+	// first call waits for the flush notice (or has returned): the request
+	// for a flush it left behind must still be honoured.
+	LateStart bool `json:"late_start,omitempty"`
 }
 
 func (c C12Case) syncInterval() time.Duration {
@@ -241,12 +245,13 @@ func runC12Free(c C12Case) (st c12Stats, v *Violation) {
 }
 
 type c12Stats struct {
-	selfBlocked bool
-	windowHit   bool
-	allDone     bool
-	preempt     int
-	skipped     bool
-	foreignErr  string
+	selfBlocked  bool
+	lateStartHit bool
+	windowHit    bool
+	allDone      bool
+	preempt      int
+	skipped      bool
+	foreignErr   string
 }
 
 // runC12Self: "including a single writer with no other traffic". The writer's
@@ -272,7 +277,9 @@ func runC12Self(c C12Case) (st c12Stats, v *Violation) {
 	pc := newPointCounter()
 	pc.install()
 	defer pc.uninstall()
-	s.Start()
+	if !c.LateStart {
+		s.Start()
+	}
 	stuck := false
 	for i, op := range c.SelfOps {
 		key := c.Keys[op.Key%len(c.Keys)].Encode(store.MultihashPrimary, false)
@@ -285,6 +292,27 @@ func runC12Self(c C12Case) (st c12Stats, v *Violation) {
 				s.Put(key, valueFor(i, op.VLen, false))
 			}
 		}()
+		if c.LateStart && i == 0 {
+			// Start the store when the call waits (or is over).
+			for until := time.Now().Add(2 * time.Second); time.Now().Before(until); {
+				select {
+				case <-done:
+					until = time.Now()
+				case <-time.After(time.Millisecond):
+				}
+				n := 0
+				for _, g := range moduleGoroutines() {
+					if !baseline[g.id] && strings.Contains(g.stack, ".(*Store).flushTick") && g.state == "chan receive" {
+						n++
+					}
+				}
+				if n > 0 {
+					st.lateStartHit = true
+					break
+				}
+			}
+			s.Start()
+		}
 		deadline := time.Now().Add(8 * time.Second)
 		quiet := 0
 	wait:
@@ -327,6 +355,11 @@ func runC12Self(c C12Case) (st c12Stats, v *Violation) {
 					}
 					if st.selfBlocked {
 						v = viol("writer-never-released|single-writer|flusher-blocked-in-its-own-loop", i, "call %d (%s, burst rate %d, periodic interval %v) waits for the flush notice while the flusher goroutine is blocked in a channel send inside its own loop (stable over 4 samples) and no flush is in progress: nobody else receives from that channel, so no flush will ever happen again", i, op.K, c.Burst, c.syncInterval())
+						stuck = true
+						break wait
+					}
+					if c.LateStart && i == 0 {
+						v = viol("writer-never-released|single-writer|request-made-before-Start-lost", i, "call %d (%s, burst rate %d) began to wait for the flush notice before Store.Start was called; the store has been started since, the flusher is idle in its select (next periodic flush in an hour) and no flush is in progress: the writer's request for a flush was lost", i, op.K, c.Burst)
 						stuck = true
 						break wait
 					}
@@ -802,8 +835,12 @@ func TestC12(t *testing.T) {
 			op.VLen = []int{1, 5, 20, 60, 200}[rapid.IntRange(0, 4).Draw(t, "vlen")]
 			return op
 		}), 5, 60).Draw(rt, "ops")
+		c.LateStart = weighted(rt, "latestart", []int{3, 1}) == 1
 		st, v := runC12(c)
 		cl := []string{"single-writer-self-release", fmt.Sprintf("burst-%d", c.Burst), fmt.Sprintf("periodic-interval-us-%d", c.SyncUS)}
+		if st.lateStartHit {
+			cl = append(cl, "single-writer-waited-before-Start")
+		}
 		if st.windowHit {
 			cl = append(cl, "single-writer-did-wait")
 		}
